@@ -246,6 +246,45 @@ def memory_training_cases(run, cols):
                         theorem="C09_cache_hit_needs_equal_key")
 
 
+def failed_request_cases(run, cols):
+    """a rating request that raises (unknown regressor, training set
+    directory that does not exist) repeated with identical arguments: it
+    raises again, it never returns a value; and a successful rating afterwards
+    is the standalone rater's"""
+    import pathlib
+    st = states(cols)
+    nowhere = pathlib.Path(common.scratch()) / "no-such-training-set"
+    for what, kw in [("unknown regressor", dict(regressor="no such regressor")),
+                     ("missing training set directory",
+                      dict(regressor="Decision Tree",
+                           training_set=nowhere))]:
+        i = st["fitted"]()
+        key = f"failed-request:{what}"
+        run.case({"scenario": "failed-request", "what": what},
+                 kind="failed-request")
+        outs = []
+        for _ in range(2):
+            try:
+                with warnings.catch_warnings():
+                    warnings.simplefilter("ignore")
+                    outs.append(("value", i.rate_quality(**kw)))
+            except BaseException as e:
+                outs.append(("raised", type(e).__name__))
+        try:
+            with warnings.catch_warnings():
+                warnings.simplefilter("ignore")
+                after = i.rate_quality(regressor="Decision Tree")
+                want = standalone(st["fitted"](), "Decision Tree")
+        except BaseException as e:
+            after, want = f"{type(e).__name__}: {e}", None
+        if outs[0] != outs[1] or outs[0][0] != "raised" or after != want:
+            run.failing(SITE, key, f"{what}: first call {outs[0]}, identical "
+                        f"second call {outs[1]}; a valid rating afterwards "
+                        f"gives {after!r} (standalone rater {want!r})",
+                        payload={"kind": "rerun"},
+                        theorem="C09_cache_hit_needs_equal_key")
+
+
 def override_cases(run, cols):
     """get_rater(..., **overrides) with other hyper-parameters: later ratings
     with the named regressor are those of its documented defaults"""
@@ -445,6 +484,7 @@ def check(run):
                    "Extra Trees", "AdaBoost"])
     memory_training_cases(run, big)
     override_cases(run, big)
+    failed_request_cases(run, big)
     rating_histories(run, big, ["Decision Tree", "Extra Trees"]
                      if run.tier == "quick" else
                      ["Decision Tree", "Extra Trees", "SVR (linear kernel)"])
